@@ -106,14 +106,19 @@ PNRecord(e, inner, outer) ==
                 \cup {[a |-> PNName(e.attrs[i][1], inner, outer), v |-> PNLit(e.attrs[i][2], inner, outer)]
                         : i \in 1..Len(e.attrs)}]
 
-SpecReadProvN(ast) ==
+(* The identifier after the keyword `bundle': the recommendation's scoping sentence ("the scope of a  *)
+(* declaration occurring in a bundle is the bundle itself") does not settle whether the identifier    *)
+(* itself is inside; readers in the field do either.  Both readings are defined, the property holds    *)
+(* when one consistent reader recovers the document.                                                   *)
+SpecReadProvNS(ast, own) ==
   LET top == PNScope(ast.decls)
       none == [pfx |-> <<>>, dflt |-> NONE]
   IN [recs |-> [i \in 1..Len(ast.exprs) |-> PNRecord(ast.exprs[i], top, none)],
       bundles |-> [b \in 1..Len(ast.bundles) |->
                      LET sc == PNScope(ast.bundles[b].decls) IN
-                     [id |-> PNName(ast.bundles[b].id, top, none),
+                     [id |-> IF own THEN PNName(ast.bundles[b].id, sc, top) ELSE PNName(ast.bundles[b].id, top, none),
                       recs |-> [i \in 1..Len(ast.bundles[b].exprs) |-> PNRecord(ast.bundles[b].exprs[i], sc, top)]]]]
+SpecReadProvN(ast) == SpecReadProvNS(ast, FALSE)
 
 (* '-' stands exactly where an optional argument is absent: every expression is written  *)
 (* with all its positions (as the library does), so markers = absent formals             *)
